@@ -406,10 +406,9 @@ def gen_pipeline_cli(rng, nmax=40):
     i["sid"], i["nid"] = _name_sel(i["sid"], names), _name_sel(i["nid"], names)
     if i["min_depth"] is None:
         i["min_depth"] = 20  # "no depth filter" cannot be said on the command line; leaving the option out means 20
-    # `export nexus-ogt` on a VCF without any record raises ValueError in baf_by_ranges (the table has no alt_freq
-    # column and the all-missing answer is built on the wrong index): proposed_fixes/C18-cli-nexus-ogt-empty-vcf.md;
-    # `call` never gets there (`if variants:`), so those VCFs go through `call` only
-    nexus = rng.random() < 0.2 and len(i["vcf"]["records"]) > 0
+    # (finding AQ, fixed by a52d03f: `export nexus-ogt` on a VCF without any record raised ValueError in
+    # baf_by_ranges; such VCFs go through both commands, and corpus-AQ keeps the witness)
+    nexus = rng.random() < 0.2
     long_ = lambda short, long: long if rng.random() < 0.4 else short
     groups = []
     if i["sid"] is not None:
@@ -520,6 +519,12 @@ def corpus():
                                                              purity=None, dyadic=True)},
         {"op": "vcf_hets", "tag": "corpus-X", "in": dict(base, vcf=homs)},
         {"op": "vcf_pipeline", "tag": "corpus-X", "in": dict(base, vcf=homs, segs=[["chr1", 0, 100]], purity=None, dyadic=True)},
+        # fix AQ: a VCF with a header and no record through `export nexus-ogt` (baf_by_ranges without alt_freq
+        # built its all-missing answer on the variant table's index -> ValueError)
+        {"op": "vcf_pipeline", "tag": "corpus-AQ",
+         "in": dict(base, vcf={"samples": ["S0"], "tags": [], "ad_number": "R", "contigs": ["chr1"], "records": []},
+                    segs=[["chr1", 0, 1000], ["chr1", 1000, 2000]], purity=None, dyadic=True, cli=True,
+                    argv=["export", "nexus-ogt", "{seg}", "{vcf}", "-o", "{out}"])},
     ]
 
 
